@@ -3,7 +3,7 @@
    library operation (through an accessor derived by ANY chain of sub-slicing from a region, or at
    guest-memory level) and returns the new state and the operation's effect list - one effect per
    (region, written byte range); [D rs j p] = page p of region j is reported dirty. *)
-From VM Require Import Prelude.MachInt Prelude.Outcome Impl.Bitmap Impl.Dirty Spec.C05 Suite.C05 Proofs.C05 Proofs.LinkDirtyBitmap.
+From VM Require Import Prelude.MachInt Prelude.Outcome Impl.Bitmap Impl.Dirty Spec.C05 Suite.C05 Proofs.C05 Proofs.C05ModelOk Proofs.LinkDirtyBitmap.
 
 (* every byte an operation writes lies inside its region and on a page that the region's own
    bitmap reports dirty afterwards - for every page size, layout, operation, offset/length,
@@ -29,6 +29,13 @@ Proof. exact wf_history. Qed.
 Theorem C05_bm_base_tracks : forall r ds a a', r_size r < W64 -> acc_ok r a -> derive_chain a ds = Some a' -> acc_ok r a'.
 Proof. exact chain_ok. Qed.
 
+(* the implementation model satisfies the executable checker ok_C05 (the one that judges the REAL
+   observations) on every history of every well-formed state; [view] is what the harness observes:
+   the page bits of each region plus a two-page margin *)
+Theorem C05_model_ok : forall hm ss rs, wf rs ->
+  ok_hist ok_C05_step (map geom_of rs) (view rs) (map kind_of ss) (run_hist hm rs ss) = true.
+Proof. exact C05_model_ok_lemma. Qed.
+
 Example C05_nonvacuous :
   let r := {| r_start := 0; r_size := 20; r_ps := 7; r_tracked := true; r_dirty := [false; false; false] |} in
   wf [r] /\
@@ -45,6 +52,7 @@ Print Assumptions C05_sound.
 Print Assumptions C05_monotone.
 Print Assumptions C05_history_wf.
 Print Assumptions C05_bm_base_tracks.
+Print Assumptions C05_model_ok.
 
 (* ---------------------------------------------------------------------------------------------
    LINK to C09 (Proofs/LinkDirtyBitmap.v): the theorems above are about regions whose bitmap is an
